@@ -65,7 +65,18 @@ def check_relations(ctx, case):
         if not vs:
             return
         case = dict(case, x4s=x4s)
-    if how in ('array', 'int-array'):
+    if how == 'fxp':
+        # the exact input arrives inside a finer fixed-point object (two more fraction bits hold the quarter LSBs)
+        if w > 40 or any(abs(x4) >= 1 << (w + 6) for x4 in x4s):
+            return
+        src = F(np.array(x4s, dtype=np.int64), True, w + 8, f + 2, raw=True)
+        ok, xobj = ctx.guard(case, lambda: F(src, s, w, f, rounding=mode[0], overflow=mode[1]), sig_prefix=sig + '/')
+        if not ok:
+            return
+        got = C.flat(C.codes(xobj))
+        fl = [C.flags(xobj)] * len(vs)
+        per_elem_flags = False
+    elif how in ('array', 'int-array'):
         arr = np.array([float(v) for v in vs], dtype=np.float64) if how == 'array' else np.array([int(v) for v in vs], dtype=np.int64)
         ok, res = ctx.guard(case, store, fmt, mode, arr, route, '1d', len(vs), (1, len(vs)), sig_prefix=sig + '/')
         if not ok:
@@ -187,6 +198,7 @@ def task_grid(ctx, fmts, scalar=False):
             check_relations(ctx, case)
             if scalar:
                 check_relations(ctx, dict(case, how='scalar', route='ctor'))
+            check_relations(ctx, dict(case, how='fxp', route='ctor', x4s=x4s))
             if f < 0:
                 # whole-number inputs through integer carriers are inexact only for negative n_frac
                 check_relations(ctx, dict(case, how='int-array', route='ctor', x4s=x4s))
@@ -225,7 +237,7 @@ def st_rel_case(draw):
                 x4 = 4 * hi if M.sig_bits(4 * hi) <= 53 else 0
         x4s.append(x4)
     return {'check': 'rel', 'fmt': list(fmt), 'mode': list(draw(C.st_modes())), 'x4s': x4s,
-            'how': draw(st.sampled_from(['array', 'scalar', 'int-array', 'int-scalar'])),
+            'how': draw(st.sampled_from(['array', 'scalar', 'int-array', 'int-scalar', 'fxp'])),
             'route': draw(st.sampled_from(['ctor', 'call', 'set_val', 'setitem', 'setitem_int']))}
 
 
